@@ -50,7 +50,9 @@ def pyrepr(v):
 POOLS = {
     "int3": [0, 1, None],
     "int": [0, 1, 2, 3, 7, -1, 10 ** 12, None],
-    "str": ["a", "b", "", "ab", "A", "é", None],
+    # incl. two DIFFERENT Python strings that are canonically equivalent under Unicode normalisation (NFC 'é' vs NFD 'e'+U+0301):
+    # key equality is Python's ==, not equivalence after normalisation
+    "str": ["a", "b", "", "ab", "A", "\u00e9", "e\u0301", None],
     "bool": [True, False, None],
     "date": ["D:2020-01-01", "D:2020-01-02", "D:1999-12-31", None],
     "datetime": ["T:2020-01-01T00:00:00", "T:2020-01-01T12:30:00", None],
